@@ -17,6 +17,8 @@ import itertools
 
 import z3
 
+z3.set_param("warning", False)  # 'if cannot be used in patterns': such patterns are dropped by z3 itself
+
 _counter = itertools.count()
 
 
